@@ -173,6 +173,14 @@ def model (line : String) : String :=
       | some s => fmtSink s
       | none => "bad-case"
     | _, _ => "bad-case"
+  | ["pl2", fu, mode, stages, vals] =>
+    -- the same graph value materialised twice: two independent runs of the same network
+    match parseStages ";" stages, parseVals vals with
+    | some sts, some vs =>
+      match (simulate (fu != "0") (mode == "b") sts vs).sink? with
+      | some s => fmtSink s ++ " ## " ++ fmtSink s
+      | none => "bad-case"
+    | _, _ => "bad-case"
   | "st" :: _ => modelSt line
   | _ => "bad-case"
 
@@ -283,6 +291,22 @@ def judge (line : String) : String :=
         | none => "ok"
         | some why => "bad " ++ why
       | none => "bad unparsable output: " ++ o
+    | _, _ => "bad-case"
+  | ["pl2", _, _, stages, vals] =>
+    match parseStages ";" stages, parseVals vals with
+    | some sts, some vs =>
+      let parts := o.splitOn " ## "
+      if parts.length ≠ 2 then "bad expected two runs: " ++ o else
+      let verdicts := parts.zipIdx.map fun (p, i) =>
+        match parseRun (if p.endsWith "|" then p ++ " " else p) with
+        | some (st, n, got) =>
+          match judgeRun sts vs st n got with
+          | none => none
+          | some why => some s!"run {i + 1} of the same graph: {why}"
+        | none => some ("unparsable output: " ++ p)
+      match verdicts.filterMap id with
+      | [] => "ok"
+      | why :: _ => "bad " ++ why
     | _, _ => "bad-case"
   | "st" :: spec :: _ => judgeSt (if spec.startsWith "~" then (spec.drop 1).toString else spec) c o
   | _ => "bad-case"
